@@ -26,6 +26,7 @@ REALISATIONS = [
     ("nested", (0, 0)), ("nested", (0, 1)), ("nested", (1, 0)), ("nested", (1, 1)),
     ("ite-then", (0,)), ("ite-then", (1,)),
     ("ite-else", (0,)), ("ite-else", (1,)),
+    ("repeat", (1,)),       # history: the body first runs under a FALSE guard, then again in live code (true guard) on the same operands
 ]
 
 
@@ -86,6 +87,14 @@ def run_guarded(prog, vec, n, p, real, guards, ign=False, sites=False):
         elif real == "ite-else":
             c, other = B.PrivValBool(1 - guards[0]), rt.PrivVal(OTHER)
             res = H.branching.if_then_else(c, other, lambda: _pick(body(), operands))
+        elif real == "repeat":
+            def dead():
+                try:
+                    body()
+                except NotASecret:
+                    pass
+            rt.guarded(B.PrivValBool(0))(dead)()
+            res = rt.guarded(B.PrivValBool(1))(body)()
         else:
             raise ValueError(real)
         r.status, r.exc, r.msg = "ok", None, None
